@@ -97,14 +97,14 @@ type grefine struct {
 }
 
 type gfact struct {
-	empty  tri3
-	eq     string
-	hasEq  bool
-	neq    []string
-	isNil  tri3
-	notNaN bool
-	notInf bool
-	boolV  tri3
+	empty   tri3
+	eq      string
+	hasEq   bool
+	neq     []string
+	isNil   tri3
+	notNaN  bool
+	notInf  bool
+	boolV   tri3
 	lenMask uint8 // possible lengths of a slice/string: bit0 len==0, bit1 len==1, bit2 len>=2 (0: nothing known)
 }
 
@@ -405,6 +405,22 @@ type gout struct {
 	ret  gval
 	heap map[*gcell]gval
 	tr   []string
+	// length classes the callee established for its slice parameters on the way to this return (parameter index ->
+	// fact): "returned a plain string only when len(n) == 1" travels back to the caller's name for the argument
+	pfacts map[int]gfact
+}
+
+func pfactsKey(m map[int]gfact) string {
+	if len(m) == 0 {
+		return ""
+	}
+	s := ""
+	for i := 0; i < 16; i++ {
+		if f, ok := m[i]; ok {
+			s += fmt.Sprintf("p%d:l%d;", i, f.lenMask)
+		}
+	}
+	return s
 }
 
 type gram struct {
